@@ -139,7 +139,8 @@ CHECKS["C10"] = dict(
          "all chains to the bound (7 definition shapes per level and block incl. nested blocks before Super, blocks in if/for) and checks "
          "ParentUnaffected and OutsideIgnored on the definition. Every template of every chain is compiled and rendered through an "
          "in-memory loader and compared with Render(chain, k); chains whose blocks contain each other without end run isolated and must "
-         "fail with an error; the invalid shapes must be compile errors.",
+         "fail with an error; the invalid shapes must be compile errors. The same definitions decide ExecuteBlocks (the named blocks of "
+         "every level rendered on their own, for seven request sets each).",
     note="Trusted: TLC, the harness's chain printer. Bounds: depth 1 full + depth 2/3 reduced shapes (quick); depth 1-3 (thorough, ~1e5 chains).",
     technique="TLA+ executable specification enumerated by TLC + exhaustive replay of every template of every chain", ref="DESIGN.md §3 C10")
 
